@@ -154,11 +154,12 @@ func hdrEquivalent(a, b *rtp.Header) bool {
 			return false
 		}
 	}
-	if !a.Extension {
-		return true
-	}
+	// the profile is a field of the result like any other: a header without extension reports none
 	if a.ExtensionProfile != b.ExtensionProfile {
 		return false
+	}
+	if !a.Extension {
+		return true
 	}
 	ia, ib := a.GetExtensionIDs(), b.GetExtensionIDs()
 	if len(ia) != len(ib) {
